@@ -115,6 +115,21 @@ TrNewConn == /\ Is("newconn") /\ Refuse
 (* contract's state changes, in particular it is not a session anybody has to wait for                      *)
 TrPlainConn == /\ Is("plainconn")
                /\ UNCHANGED <<phase, ss, plan, drain, store, dirty, scanner, hub>> /\ Keep /\ Mark
+(* every open client falls silent and keeps its connection; the server ends those sessions itself when its idle   *)
+(* timeout expires (for the contract: as if each client had gone - nothing further of theirs is stored or removed). *)
+(* The sessions count as ended from the moment the wait begins, so a Drain may return at any time during it;      *)
+(* "idledone" then says that every one of those clients did see its connection end.                                *)
+TrIdleOut == /\ Is("idleout")
+             /\ LET S == ToSet(Ev.ss) IN
+                  /\ \A s \in S : IsStage(ss[s])
+                  /\ ss' = [s \in Sess |-> IF s \in S THEN "ended" ELSE ss[s]]
+                  /\ dirty' = dirty \cup UNION {IF ss[s] \in {"data", "marked"} THEN plan[s].mbs ELSE {} : s \in S}
+             /\ UNCHANGED <<phase, plan, drain, store, scanner, hub>>
+             /\ Keep /\ Mark
+TrIdleDone == /\ Is("idledone")
+              /\ \A i \in DOMAIN Ev.eof : Ev.eof[i]
+              /\ UNCHANGED <<phase, ss, plan, drain, store, dirty, scanner, hub>>
+              /\ Keep /\ Mark
 TrDrain == /\ Is("drain") /\ DrainCall
            /\ held' = {s \in Sess : ss[s] = "accepted"}
            /\ UNCHANGED <<dseq, early, wired>> /\ Mark
@@ -147,7 +162,7 @@ TrDied == /\ Is("died")
           /\ UNCHANGED <<phase, ss, plan, drain, store, dirty, scanner, hub>>
           /\ Keep /\ Mark
 
-TraceNext == \/ TrReset \/ TrOpen \/ TrAccept \/ TrRelease \/ TrStep \/ TrQuit \/ TrHangup
+TraceNext == \/ TrIdleOut \/ TrIdleDone \/ TrReset \/ TrOpen \/ TrAccept \/ TrRelease \/ TrStep \/ TrQuit \/ TrHangup
              \/ TrCancel \/ TrPlainConn \/ TrNewConn \/ TrDrain \/ TrDrained \/ TrEnd \/ TrDied
 
 TraceSpec == TraceInit /\ [][TraceNext]_tvars
